@@ -38,6 +38,10 @@ ASSUMPTIONS = [
     'The reference of every call is the same call with cache_dir=None in a fresh interpreter; cached calls run in '
     'children forked from a process that has imported asn1tools and never compiled anything (all transitions out of '
     'one BFS state share one child; every reported divergence is re-executed with one fresh interpreter per call).',
+    'Every step of a history runs with its copy of the working directory bind-mounted at one fixed absolute path '
+    '(private mount namespace per child), so behaviour keyed on absolute file names is not lost by materialising '
+    'states as directory copies; `edit f1` keeps the file size and restores the modification time (an edit invisible '
+    'to file metadata).',
     'SIGKILL is delivered on entry to the n-th syscall (the call itself is not executed), so the enumeration covers '
     'every prefix of the sequence of state-changing syscalls; power loss (un-synced page cache) is not modelled.',
     'After damage, a returned object that is not a Specification, and a Specification that differs from the uncached '
@@ -151,7 +155,7 @@ def _populate_child(emit, workdir, calls, clean, frozen):
     if not clean:
         gc.disable()     # the Cache objects stay alive: leave through os._exit with the SQLite
                          # connections open, so that -wal and -shm stay behind
-    os.chdir(workdir)
+    fs.enter(workdir)
     for c in calls:
         out = fs.do_call(c)
         if clean:
@@ -269,7 +273,7 @@ def _expand_child(emit, statedir, ops, expected, keeproot, parent_canon, scratch
         tmp = tempfile.mkdtemp(prefix='t-', dir=scratch)
         w = os.path.join(tmp, 'w')
         shutil.copytree(statedir, w)
-        os.chdir(w)
+        fs.enter(w)
         if op.get('edit'):
             fs.toggle_f1(w)
             out, dg = None, None
@@ -278,7 +282,7 @@ def _expand_child(emit, statedir, ops, expected, keeproot, parent_canon, scratch
             fs.release()
             dg = fs.digest(out)
         c = fs.canon(w)
-        os.chdir(scratch)
+        fs.leave(scratch)
         if c != parent_canon:
             target = os.path.join(keeproot, fs.canon_hash(c))
             if not os.path.exists(target):
@@ -441,6 +445,7 @@ def work_bfs(unit):
     _, tier, label, optname, H = unit
     opts = 'core' if optname == 'core' else (OPTS_QUICK if optname == 'quick' else OPTS_FULL)
     ops = bfs_ops(opts)
+    res.count('workdir_fixed_path' if fs.fixed_path_available() else 'workdir_plain_path')
     prime(ops)
     explore_bfs(res, ops, H, max(1, NPROC), label)
     return res
@@ -630,12 +635,12 @@ def _damage_child(emit, base, rel, data, cases, follow, scratch, expected):
         if case is not None:
             apply_damage(os.path.join(w, fs.CACHE, rel), data, case)
             emit(('start', case))
-        os.chdir(w)
+        fs.enter(w)
         outs = []
         for c in follow:
             outs.append(fs.do_call(c, budget_sig=True))
             fs.release()
-        os.chdir(scratch)
+        fs.leave(scratch)
         shutil.rmtree(tmp, ignore_errors=True)
         if case is not None:
             emit(('done', case, outs))
